@@ -312,22 +312,50 @@ NOT_READY = {("ValueFunction", "vf_bad"), ("ValueFunction", "vf_missing"), ("Res
              ("Workflow", "wf_missing")} | (set(SHARED_REFS) - SHARED_READY)
 
 
+# a definition of the harness' own world on which the real prepare RAISED: (kind, name, spec, what).  The world is
+# made of plain well-formed definitions, so this is itself an observation about the code under test ("preparing any
+# definition never crashes"), not an infrastructure failure; the checks report it as a failing input.
+SETUP_FAILURES: list = []
+
+
+async def _offer(kind: str, name: str, spec):
+    import koreo_util as ku
+
+    fn = {"ValueFunction": ku.offer_value_function, "ResourceFunction": ku.offer_resource_function,
+          "Workflow": ku.offer_workflow}[kind]
+    try:
+        await fn(name, spec)
+    except Exception as e:  # noqa: BLE001
+        if not any(f[0] == kind and f[1] == name for f in SETUP_FAILURES):
+            SETUP_FAILURES.append((kind, name, spec, type(e).__name__ + ": " + str(e)[:120]))
+
+
 def setup_cache():
     import koreo_util as ku
 
     ku.reset()
 
     async def go():
-        await ku.offer_value_function("vf_ok1", VF_OK)
-        await ku.offer_value_function("vf_ok2", {"return": {"v": "=inputs.a + inputs.b"}})
-        await ku.offer_value_function("vf_bad", VF_BAD)
-        await ku.offer_resource_function("rf_ok", RF_OK)
-        await ku.offer_workflow("wf_sub", WF_SUB)
-        await ku.offer_value_function("bucket", VF_OK)
-        await ku.offer_workflow("bucket", WF_SUB)
-        await ku.offer_resource_function("twin", RF_OK)
+        await _offer("ValueFunction", "vf_ok1", VF_OK)
+        await _offer("ValueFunction", "vf_ok2", {"return": {"v": "=inputs.a + inputs.b"}})
+        await _offer("ValueFunction", "vf_bad", VF_BAD)
+        await _offer("ResourceFunction", "rf_ok", RF_OK)
+        await _offer("Workflow", "wf_sub", WF_SUB)
+        await _offer("ValueFunction", "bucket", VF_OK)
+        await _offer("Workflow", "bucket", WF_SUB)
+        await _offer("ResourceFunction", "twin", RF_OK)
 
     ku.run(go())
+
+
+def report_setup_failures(ck: Check, prop: str):
+    """a well-formed definition of the harness' world raised on prepare: a failing input (C20's clause; for C14 it
+    means nothing of that definition was recorded or watched)"""
+    for kind, name, spec, what in SETUP_FAILURES:
+        case = ({"kind": "prepare", "resource": kind, "spec": spec, "via_cache": True} if prop == "C20"
+                else {"kind": "world", "resource": kind, "name": name, "spec": spec})
+        ck.violate(case, f"prepare of the well-formed {kind} `{name}` raised {what}")
+    SETUP_FAILURES.clear()
 
 
 def cache_state(kind: str, name: str):
@@ -761,7 +789,7 @@ def setup_ft_cache():
         for name, (extra, _) in RF_TMPL.items():
             spec = {"apiConfig": {"apiVersion": "v1", "kind": "ConfigMap", "name": "=inputs.t", "namespace": "ns"}}
             spec.update(extra)
-            await ku.offer_resource_function(name, spec)
+            await _offer("ResourceFunction", name, spec)
 
     ku.run(go())
 
@@ -897,6 +925,15 @@ def replay_case(case) -> str | None:
         setup_cache()
         setup_ft_cache()
         return ft_oracle(tuple(case["fn"]), impl_ft(case["spec"]), case.get("cases_ok"))
+    if k == "world":
+        import koreo_util as ku
+
+        ku.reset()
+        SETUP_FAILURES.clear()
+        ku.run(_offer(case["resource"], case["name"], case["spec"]))
+        bad = [f for f in SETUP_FAILURES]
+        SETUP_FAILURES.clear()
+        return f"prepare of the well-formed {case['resource']} raised {bad[0][3]}" if bad else None
     return f"unknown case kind {k}"
 
 
@@ -946,6 +983,7 @@ def run(tier: str) -> int:
     run_workflows(ck, drv, 500 if quick else 6000, r)
     ck.notes.append(f"workflows: {time.time() - t0:.1f}s")
     run_functions(ck, drv, 250 if quick else 3000, r)
+    report_setup_failures(ck, "C14")
     return ck.finish(
         rule="random CEL expressions (member access, indexing, map/filter/all/exists/exists_one/has, calls, "
              "operators, conditionals, list/map/message literals over steps/inputs/parent, depth 1-4, plus the "
